@@ -27,7 +27,7 @@ class C11(Prop):
             "reference, constant key or string, followed by >= 1 mutating step; deep/cyclic shapes count by shape; distinct by case hash")
     ASSUMPTIONS = ["N = LIMIT+1 containers gets no verdict (the code counts node depth, the statement says 'nested deeper than the limit': "
                    "whether the innermost empty container of LIMIT+1 counts is left open)"]
-    REQUIRED_CLASSES = ["program", "deep_accept", "deep_refuse", "deep_with_siblings", "cyclic", "cyclic_through_api_reference", "deep_const_keys", "copy_of_reference", "copy_with_const_key", "non_recursive", "wide_container"]
+    REQUIRED_CLASSES = ["program", "deep_accept", "deep_refuse", "deep_with_siblings", "cyclic", "cyclic_through_api_reference", "deep_const_keys", "copy_of_reference", "copy_with_const_key", "non_recursive", "wide_container", "tail_view"]
 
     def budget(self, tier):
         return {"workers": 14, "examples": 500 if tier == "quick" else 12000}
@@ -42,7 +42,11 @@ class C11(Prop):
         # very long sibling lists: a copy must not recurse over siblings, lose count, or mislink the tail
         wide = st.fixed_dictionaries({"kind": st.just("wide"), "n": st.sampled_from([10000, 10001, 10002, 65536, 150000, 400000]),
                                       "object": st.booleans(), "nested": st.booleans()})
-        return gens.weighted((120, prog), (18, deep), (18, cyc), (2, wide))
+        # a reference container that shares only the TAIL of another container's list (made with cJSON_Create*Reference on an inner
+        # child, or left behind when the owner gets a new first element): a well-formed tree whose copy is the owned tail
+        tail = st.fixed_dictionaries({"kind": st.just("tail_view"), "jv": seed_trees(1).map(lambda l: l[0] if l else ["A", [["n"], ["t"], ["f"]]]),
+                                      "k": st.integers(0, 7), "how": st.sampled_from(["create_reference", "insert_before_first"]), "object": st.booleans()})
+        return gens.weighted((120, prog), (18, deep), (18, cyc), (2, wide), (8, tail))
 
     # ------------------------------------------------------------------
     def run_case(self, lib, case, stats):
@@ -51,6 +55,8 @@ class C11(Prop):
             self.run_program(lib, case, stats)
         elif k == "wide":
             self.run_wide(lib, case, stats)
+        elif k == "tail_view":
+            self.run_tail_view(lib, case, stats)
         elif k == "deep":
             self.run_deep(lib, case, stats)
         else:
@@ -60,6 +66,59 @@ class C11(Prop):
         s = lib.stats()
         if s.foreign_free or s.cross_free:
             raise Violation("foreign or double free", key="free")
+
+    def run_tail_view(self, lib, case, stats):
+        from .. import printing
+        jv = case["jv"]
+        kids = [ch if jv[0] == "A" else ch[1] for ch in jv[1]] if jv[0] in "AO" else []
+        if len(kids) < 2:
+            kids = [["n"], ["N", 1.5], ["S", b"x"], ["A", [["t"]]]]
+        if case["object"]:
+            host_jv = ["O", [[b"k%d" % i, v] for i, v in enumerate(kids)]]
+        else:
+            host_jv = ["A", kids]
+        host = printing.build_tree(lib, host_jv)
+        hk = lib.children(host)
+        if case["how"] == "create_reference":
+            k = 1 + case["k"] % (len(kids) - 1)
+            ref = (lib.cJSON_CreateObjectReference if case["object"] else lib.cJSON_CreateArrayReference)(hk[k])
+            view_jv = [host_jv[0], host_jv[1][k:]]
+        else:
+            # the reference is taken of the whole container; then the owner gets a new first element: the view still starts at the old one
+            holder = lib.cJSON_CreateArray()
+            lib.cJSON_AddItemReferenceToArray(holder, host)
+            ref = lib.cJSON_DetachItemFromArray(holder, 0)
+            lib.cJSON_Delete(holder)
+            if case["object"]:
+                view_jv = host_jv     # (objects only grow at the end: the view stays complete)
+                lib.cJSON_AddItemToObject(host, b"appended", lib.cJSON_CreateNumber(3.0))
+                view_jv = ["O", host_jv[1] + [[b"appended", ["N", 3.0]]]]
+            else:
+                lib.cJSON_InsertItemInArray(host, 0, lib.cJSON_CreateString(b"new first"))
+                view_jv = host_jv
+        plain = printing.build_tree(lib, view_jv)
+        stats.cls("tail_view")
+        stats.nontriv(["tail", jv, case["k"], case["how"], case["object"]], {"view_of": host_jv, "how": case["how"]})
+        cp = cp0 = None
+        try:
+            cp = lib.cJSON_Duplicate(ref, 1)
+            if not cp:
+                raise Violation("Duplicate refused a reference container that shares the tail of another container's list (a well-formed tree, depth %d)" % model.depth_of(view_jv), key="tail-null")
+            want = printing.strip_ownership(lib.dump(plain)[0])
+            got, fl, _, _ = lib.dump(cp)
+            if fl:
+                raise Violation("the copy of a tail view has structural defects %d" % fl, key="tail-structure")
+            if got != want:
+                raise Violation("the copy of a tail view differs from the owned container with the same elements: %s" % model.explain_dump_diff(got, want), key="tail-content")
+            if lib.shim_next(cp) or lib.shim_prev(cp) or (lib.shim_type(cp) & 256):
+                raise Violation("the copy of a tail view has sibling links or the reference bit", key="tail-structure")
+            cp0 = lib.cJSON_Duplicate(ref, 0)
+            if not cp0 or lib.shim_child(cp0):
+                raise Violation("a non-recursive duplicate of a reference container has children (or is NULL)", key="tail-nonrecursive")
+        finally:
+            for p in (cp, cp0, ref, plain, host):
+                if p:
+                    lib.cJSON_Delete(p)
 
     def run_wide(self, lib, case, stats):
         n = case["n"]
